@@ -932,8 +932,15 @@ class Interp:
             c.oblige("%s/loop/%s/preserved" % (self.tag, key), self._inv(spec, ns()), kind="loop-preserved")
             if variant0 is not None:
                 v1 = spec.decreases(ns())
-                c.oblige("%s/loop/%s/decreases" % (self.tag, key), band(variant0 >= 0, v1 < variant0),
-                         kind="loop-variant")
+                if isinstance(variant0, tuple):  # lexicographic, every component bounded below by 0
+                    dec, eq = False, True
+                    for x0, x1 in zip(variant0, v1):
+                        dec = bor(dec, band(eq, x1 < x0))
+                        eq = band(eq, x1 == x0)
+                    ok = band(*([x0 >= 0 for x0 in variant0] + [dec]))
+                else:
+                    ok = band(variant0 >= 0, v1 < variant0)
+                c.oblige("%s/loop/%s/decreases" % (self.tag, key), ok, kind="loop-variant")
             raise core.Cut()
         self.exec_block(s.orelse, env, globs)
 
